@@ -8,6 +8,7 @@ import (
 	"regexp"
 	"runtime/debug"
 	"sort"
+	"strconv"
 	"strings"
 	"sync"
 	"testing"
@@ -330,7 +331,9 @@ func c14body(ri *simcheck.RunInfo, s C14Scenario) {
 			seenSQL.Store(key, first)
 		}
 		for k := 1; k < len(tickSQL); k++ {
-			if len(tickSQL[k]) == 2 && len(tickSQL[0]) == 2 && tickSQL[0][1] != "" && !(len(tickSQL[k][1]) > len(tickSQL[0][1]) || tickSQL[k][1] > tickSQL[0][1]) {
+			// (two ticks executed at one instant - the loop was held up and found the next tick already queued - carry
+			// the same bound legitimately: only an execution that started later must look further)
+			if len(tickSQL[k]) == 3 && len(tickSQL[0]) == 3 && tickSQL[0][1] != "" && startedLater(tickSQL[k][2], tickSQL[0][2]) && !(len(tickSQL[k][1]) > len(tickSQL[0][1]) || tickSQL[k][1] > tickSQL[0][1]) {
 				add("plan-not-reexecutable", "re-executing a prepared plan keeps the first execution's time bounds: "+classOfQuery(s.Subject.Query),
 					fmt.Sprintf("live tail of %q: the upper time bound of tick %d (%s) is not later than tick 1's (%s)", s.Subject.Query, k+1, tickSQL[k][1], tickSQL[0][1]))
 				break
@@ -526,7 +529,7 @@ loop:
 	var ticks [][]string
 	for _, stt := range st.db.ForScript(&res, from) {
 		if stt.Class == "data" {
-			ticks = append(ticks, []string{canon(stt.SQL), maxTime(stt.SQL)})
+			ticks = append(ticks, []string{canon(stt.SQL), maxTime(stt.SQL), strconv.FormatInt(stt.StartT.UnixNano(), 10)})
 		}
 	}
 	return ticks
@@ -543,4 +546,10 @@ func maxDate(q string) string {
 		}
 	}
 	return m
+}
+
+func startedLater(a, b string) bool {
+	x, _ := strconv.ParseInt(a, 10, 64)
+	y, _ := strconv.ParseInt(b, 10, 64)
+	return x > y
 }
